@@ -825,7 +825,9 @@ Lemma net_remove_spec n s k pos p dir n2 :
   NetInv n -> net_inited n = true ->
   nth_error (socks n) s = Some k -> pollpos k = Some pos -> nth_error (fds n) pos = Some p ->
   clearbit pos dir (net_with n (upd_nth s (sk_set dir None k) (socks n)) (fds n)) = Ok n2 ->
-  NetInv n2 /\ net_inited n2 = true /  (forall f d, field n2 f d = if Nat.eqb f s && Bool.eqb d dir then None else field n f d) /  (forall f, rev_at n2 f = if Nat.eqb f s
+  NetInv n2 /\ net_inited n2 = true /\
+  (forall f d, field n2 f d = if Nat.eqb f s && Bool.eqb d dir then None else field n f d) /\
+  (forall f, rev_at n2 f = if Nat.eqb f s
                            then (if p_ein (pf_clear dir p) || p_eout (pf_clear dir p)
                                  then p_rev (pf_clear dir p) else rb_none)
                            else rev_at n f).
@@ -836,16 +838,16 @@ Proof.
   unfold clearbit in H. simpl in H. unfold rdn in H at 1. rewrite Hp in H. simpl in H.
   destruct (p_ein (pf_clear dir p) || p_eout (pf_clear dir p)) eqn:Hev.
   - inversion H; subst n2. rewrite net_with_with.
-    split; [apply rm_keep_inv; auto|]. split; [exact Hin|]. split.
-    + intros f d. apply rm_field_keep; auto.
-    + intros f. apply rm_rev_keep; auto.
+    split; [apply (rm_keep_inv n s k pos p dir); auto|]. split; [exact Hin|]. split.
+    + intros f d. apply (rm_field_keep n s k p dir); auto.
+    + intros f. apply (rm_rev_keep n s k pos p dir); auto.
   - rewrite p_fd_clear, Hpfd in H. unfold rdn in H at 1. rewrite nth_error_upd_nth_eq in H by exact Hs.
-    simpl in H.
+    simpl in H. rewrite upd_nth_twice in H.
     destruct (pos =? length (fds n) - 1) eqn:El.
     + apply Nat.eqb_eq in El. inversion H; subst n2. rewrite net_with_with.
-      split; [apply rm_last_inv; auto|]. split; [exact Hin|]. split.
-      * intros f d. apply rm_field_last; auto.
-      * intros f. apply rm_rev_last; auto.
+      split; [apply (rm_last_inv n s k pos p dir); auto|]. split; [exact Hin|]. split.
+      * intros f d. apply (rm_field_last n s k p dir); auto.
+      * intros f. apply (rm_rev_last n s k pos p dir); auto.
     + apply Nat.eqb_neq in El.
       destruct (rdn (fds n) (length (fds n) - 1)) as [pl| | |] eqn:Epl; simpl in H; try discriminate.
       apply rdn_ok in Epl.
@@ -853,7 +855,349 @@ Proof.
       unfold rdn in H. rewrite nth_error_upd_nth_neq in H by congruence.
       destruct (nth_error (socks n) (p_fd pl)) as [kl|] eqn:Ekl; simpl in H; [|discriminate].
       inversion H; subst n2. rewrite net_with_with.
-      split; [apply rm_move_inv; auto|]. split; [exact Hin|]. split.
-      * intros f d. apply rm_field_move; auto.
-      * intros f. apply rm_rev_move; auto.
+      split; [apply (rm_move_inv n s k pos p dir); auto|]. split; [exact Hin|]. split.
+      * intros f d. apply (rm_field_move n s k pos p dir); auto.
+      * intros f. apply (rm_rev_move n s k pos p dir); auto.
 Qed.
+
+(* what the client-visible readiness state may do across an operation: bits only disappear,
+   and the bit of the removed registration is gone *)
+Definition rev_shrinks (n n2 : net_st) (s : nat) (dir : bool) : Prop :=
+  (forall f d, rb_dir (rev_at n2 f) d = true -> rb_dir (rev_at n f) d = true /\ ~ (f = s /\ d = dir)) /\
+  (forall f, rb_errhup (rev_at n2 f) = true -> rb_errhup (rev_at n f) = true).
+
+Lemma net_remove_shrinks n s k pos p dir n2 :
+  NetInv n -> net_inited n = true ->
+  nth_error (socks n) s = Some k -> pollpos k = Some pos -> nth_error (fds n) pos = Some p ->
+  clearbit pos dir (net_with n (upd_nth s (sk_set dir None k) (socks n)) (fds n)) = Ok n2 ->
+  rev_shrinks n n2 s dir.
+Proof.
+  intros HI Hin Hk Hpos Hp H.
+  destruct (net_remove_spec n s k pos p dir n2 HI Hin Hk Hpos Hp H) as [_ [_ [_ Hrev]]].
+  assert (Hs : rev_at n s = p_rev p).
+  { unfold rev_at. rewrite (rm_slot_s n s k pos p Hk Hpos Hp). reflexivity. }
+  split.
+  - intros f d Hr. rewrite Hrev in Hr. destruct (Nat.eqb f s) eqn:E.
+    + apply Nat.eqb_eq in E. subst f. rewrite Hs.
+      destruct (p_ein (pf_clear dir p) || p_eout (pf_clear dir p)).
+      * destruct (bool_neq_cases dir d) as [<- | Hd].
+        -- rewrite rb_dir_clear_same in Hr. discriminate.
+        -- rewrite rb_dir_clear_other in Hr by assumption. split; [exact Hr|]. intros [_ X]. congruence.
+      * destruct d; discriminate.
+    + apply Nat.eqb_neq in E. split; [exact Hr|]. intros [X _]. congruence.
+  - intros f Hr. rewrite Hrev in Hr. destruct (Nat.eqb f s) eqn:E.
+    + apply Nat.eqb_eq in E. subst f. rewrite Hs.
+      destruct (p_ein (pf_clear dir p) || p_eout (pf_clear dir p)).
+      * rewrite errhup_clear in Hr. exact Hr.
+      * discriminate.
+    + exact Hr.
+Qed.
+
+(* ---------------------------------------------------------------- events_network_cancel *)
+Lemma net_cancel_spec fd op n0 x n' :
+  NetInv n0 -> net_cancel fd op n0 = Ok (x, n') ->
+  NetInv n' /\ net_inited n' = true /\
+  match x with
+  | inr err =>
+    (forall f d, field n' f d = field n0 f d) /\ (forall f, rev_at n' f = rev_at n0 f) /\
+    (forall dir, (0 <= fd)%Z -> op_dir op = Some dir -> field n0 (Z.to_nat fd) dir = None)
+  | inl rc =>
+    exists dir, (0 <= fd)%Z /\ op_dir op = Some dir /\ field n0 (Z.to_nat fd) dir = Some rc /\
+      (forall f d, field n' f d =
+                   if Nat.eqb f (Z.to_nat fd) && Bool.eqb d dir then None else field n0 f d) /\
+      rev_shrinks n0 n' (Z.to_nat fd) dir
+  end.
+Proof.
+  intros HI0 H. unfold net_cancel in H.
+  pose proof (net_init_inv n0 HI0) as HI. pose proof (net_init_inited n0) as Hin.
+  assert (Hf0 : forall f d, field (net_init n0) f d = field n0 f d) by (intros; apply net_init_field; auto).
+  assert (Hr0 : forall f, rev_at (net_init n0) f = rev_at n0 f).
+  { intros f. unfold rev_at. rewrite net_init_slot by assumption. reflexivity. }
+  set (n := net_init n0) in *.
+  destruct (fd <? 0)%Z eqn:Efd.
+  { inversion H; subst. split; [exact HI|]. split; [exact Hin|]. split; [exact Hf0|]. split; [exact Hr0|].
+    intros dir X. apply Z.ltb_lt in Efd. lia. }
+  apply Z.ltb_ge in Efd.
+  destruct (op_dir op) as [dir|] eqn:Eop.
+  2:{ inversion H; subst. split; [exact HI|]. split; [exact Hin|]. split; [exact Hf0|]. split; [exact Hr0|].
+      intros dir _ X. discriminate X. }
+  set (s := Z.to_nat fd) in *.
+  destruct (length (socks n) <=? s) eqn:Elen.
+  { inversion H; subst. split; [exact HI|]. split; [exact Hin|]. split; [exact Hf0|]. split; [exact Hr0|].
+    intros d _ X. inversion X; subst d. rewrite <- Hf0. unfold field.
+    apply Nat.leb_le in Elen. assert (E : nth_error (socks n) s = None) by (apply nth_error_None; exact Elen).
+    rewrite E. reflexivity. }
+  destruct (rdn (socks n) s) as [k| | |] eqn:Ek; simpl in H; try discriminate.
+  apply rdn_ok in Ek.
+  destruct (sk_get dir k) as [rc|] eqn:Eget.
+  2:{ inversion H; subst. split; [exact HI|]. split; [exact Hin|]. split; [exact Hf0|]. split; [exact Hr0|].
+      intros d _ X. inversion X; subst d. rewrite <- Hf0. unfold field. rewrite Ek. exact Eget. }
+  destruct (pollpos k) as [pp|] eqn:Epp; [|discriminate].
+  destruct (clearbit pp dir (net_with n (upd_nth s (sk_set dir None k) (socks n)) (fds n))) as [n2| | |] eqn:Ecb;
+    simpl in H; try discriminate.
+  inversion H; subst x n'.
+  destruct (n_sock_slot n HI s k pp Ek Epp) as [p [Hp Hpfd]].
+  destruct (net_remove_spec n s k pp p dir n2 HI Hin Ek Epp Hp Ecb) as [HI2 [Hin2 [Hf2 _]]].
+  pose proof (net_remove_shrinks n s k pp p dir n2 HI Hin Ek Epp Hp Ecb) as [Hs1 Hs2].
+  split; [exact HI2|]. split; [exact Hin2|].
+  exists dir. split; [exact Efd|]. split; [reflexivity|]. split.
+  { rewrite <- Hf0. unfold field. rewrite Ek. exact Eget. }
+  split.
+  - intros f d. rewrite Hf2. destruct (Nat.eqb f s && Bool.eqb d dir); [reflexivity | apply Hf0].
+  - split.
+    + intros f d Hr. destruct (Hs1 f d Hr) as [A B]. rewrite Hr0 in A. auto.
+    + intros f Hr. rewrite <- Hr0. apply Hs2. exact Hr.
+Qed.
+
+(* ---------------------------------------------------------------- operations that only write
+   revents: poll() (every entry) and the POLLERR/POLLHUP folding (one entry) *)
+Definition rev_only (g : pollfd -> pollfd) : Prop :=
+  forall p, p_fd (g p) = p_fd p /\ p_ein (g p) = p_ein p /\ p_eout (g p) = p_eout p /\
+            (forall d, rb_dir (p_rev (g p)) d = true -> pf_ev d p = true).
+
+Lemma pf_ev_same p q d : p_ein q = p_ein p -> p_eout q = p_eout p -> pf_ev d q = pf_ev d p.
+Proof. intros A B. destruct d; simpl; congruence. Qed.
+
+Lemma map_rev_inv n g :
+  NetInv n -> rev_only g -> NetInv (net_with n (socks n) (map g (fds n))).
+Proof.
+  intros HI Hg. constructor; simpl.
+  - intros j q Hq. rewrite nth_error_map in Hq. destruct (nth_error (fds n) j) as [p|] eqn:Ep; [|discriminate].
+    inversion Hq; subst q. destruct (Hg p) as [A _]. rewrite A. eapply (n_slot_sock n HI); eauto.
+  - intros i k j Hk Hj. destruct (n_sock_slot n HI i k j Hk Hj) as [p [A B]].
+    exists (g p). split; [rewrite nth_error_map, A; reflexivity|]. destruct (Hg p) as [X _]. congruence.
+  - apply (n_nopos n HI).
+  - intros j q k d Hq Hk. rewrite nth_error_map in Hq. destruct (nth_error (fds n) j) as [p|] eqn:Ep; [|discriminate].
+    inversion Hq; subst q. destruct (Hg p) as [A [B [C _]]]. rewrite A in Hk.
+    rewrite (pf_ev_same p (g p) d B C). eapply (n_events n HI); eauto.
+  - intros j q d Hq Hr. rewrite nth_error_map in Hq. destruct (nth_error (fds n) j) as [p|] eqn:Ep; [|discriminate].
+    inversion Hq; subst q. destruct (Hg p) as [A [B [C D]]].
+    rewrite (pf_ev_same p (g p) d B C). apply D. exact Hr.
+  - intros X. destruct (n_uninit n HI X) as [A B]. rewrite B. auto.
+Qed.
+
+Lemma map_rev_field n g f d : field (net_with n (socks n) (map g (fds n))) f d = field n f d.
+Proof. reflexivity. Qed.
+
+Lemma map_rev_slot n g f :
+  slot (net_with n (socks n) (map g (fds n))) f = option_map g (slot n f).
+Proof.
+  unfold slot. simpl. destruct (nth_error (socks n) f) as [k|]; [|reflexivity].
+  destruct (pollpos k) as [j|]; [|reflexivity]. rewrite nth_error_map. reflexivity.
+Qed.
+
+Lemma upd_rev_inv n pos p0 q :
+  NetInv n -> nth_error (fds n) pos = Some p0 ->
+  p_fd q = p_fd p0 -> p_ein q = p_ein p0 -> p_eout q = p_eout p0 ->
+  (forall d, rb_dir (p_rev q) d = true -> pf_ev d p0 = true) ->
+  NetInv (net_with n (socks n) (upd_nth pos q (fds n))).
+Proof.
+  intros HI Hp0 Hfd He1 He2 Hrev. constructor; simpl.
+  - intros j x Hx. apply nth_error_upd_nth in Hx. destruct Hx as [[<- [-> _]] | [Hj Hx]].
+    + rewrite Hfd. eapply (n_slot_sock n HI); eauto.
+    + eapply (n_slot_sock n HI); eauto.
+  - intros i k j Hk Hj. destruct (n_sock_slot n HI i k j Hk Hj) as [p [A B]].
+    destruct (Nat.eq_dec pos j) as [<- | Hne].
+    + exists q. split; [apply nth_error_upd_nth_eq; eapply nth_error_lt; eauto | congruence].
+    + exists p. split; [rewrite nth_error_upd_nth_neq by exact Hne; exact A | exact B].
+  - apply (n_nopos n HI).
+  - intros j x k d Hx Hk. apply nth_error_upd_nth in Hx. destruct Hx as [[<- [-> _]] | [Hj Hx]].
+    + rewrite Hfd in Hk. rewrite (pf_ev_same p0 q d He1 He2). eapply (n_events n HI); eauto.
+    + eapply (n_events n HI); eauto.
+  - intros j x d Hx Hr. apply nth_error_upd_nth in Hx. destruct Hx as [[<- [-> _]] | [Hj Hx]].
+    + rewrite (pf_ev_same p0 q d He1 He2). apply Hrev. exact Hr.
+    + eapply (n_revents n HI); eauto.
+  - intros X. destruct (n_uninit n HI X) as [A B]. rewrite B in Hp0. destruct pos; discriminate.
+Qed.
+
+Lemma upd_rev_slot n pos p0 q f :
+  NetInv n -> nth_error (fds n) pos = Some p0 ->
+  slot (net_with n (socks n) (upd_nth pos q (fds n))) f =
+  if Nat.eqb f (p_fd p0) then Some q else slot n f.
+Proof.
+  intros HI Hp0. unfold slot. simpl.
+  destruct (n_slot_sock n HI pos p0 Hp0) as [k0 [A0 B0]].
+  destruct (Nat.eqb f (p_fd p0)) eqn:E.
+  - apply Nat.eqb_eq in E. subst f. rewrite A0, B0. apply nth_error_upd_nth_eq. eapply nth_error_lt; eauto.
+  - apply Nat.eqb_neq in E. destruct (nth_error (socks n) f) as [k|] eqn:Ek; [|reflexivity].
+    destruct (pollpos k) as [j|] eqn:Ej; [|reflexivity].
+    destruct (n_sock_slot n HI f k j Ek Ej) as [x [A B]].
+    assert (pos <> j) by (intros <-; congruence).
+    rewrite nth_error_upd_nth_neq by assumption. reflexivity.
+Qed.
+
+(* the two instances for poll *)
+Lemma apply_poll_rev_only raw : rev_only (apply_poll raw).
+Proof.
+  intros p. unfold apply_poll. simpl. repeat split; auto.
+  intros d. destruct (lookup_fd (p_fd p) raw) as [a|]; destruct d; simpl;
+    try discriminate; intros H; apply andb_true_iff in H; tauto.
+Qed.
+
+Lemma zero_rev_only : rev_only (pf_set_rev rb_none).
+Proof. intros p. simpl. repeat split; auto. intros d. destruct d; discriminate. Qed.
+
+(* and the one for the fold *)
+Lemma pf_fold_fd p : p_fd (pf_fold p) = p_fd p.
+Proof. unfold pf_fold. destruct (rb_errhup (p_rev p)); reflexivity. Qed.
+Lemma pf_fold_ein p : p_ein (pf_fold p) = p_ein p.
+Proof. unfold pf_fold. destruct (rb_errhup (p_rev p)); reflexivity. Qed.
+Lemma pf_fold_eout p : p_eout (pf_fold p) = p_eout p.
+Proof. unfold pf_fold. destruct (rb_errhup (p_rev p)); reflexivity. Qed.
+
+Lemma pf_fold_rev_dir p d :
+  rb_dir (p_rev (pf_fold p)) d = true ->
+  rb_dir (p_rev p) d = true \/ (rb_errhup (p_rev p) = true /\ pf_ev d p = true).
+Proof.
+  unfold pf_fold. destruct (rb_errhup (p_rev p)) eqn:E; [|auto].
+  destruct d; simpl; intros H; apply orb_true_iff in H; tauto.
+Qed.
+
+Lemma pf_fold_errhup p : rb_errhup (p_rev (pf_fold p)) = true -> rb_errhup (p_rev p) = true.
+Proof. unfold pf_fold. destruct (rb_errhup (p_rev p)) eqn:E; [reflexivity | rewrite E; auto]. Qed.
+
+Lemma fold_inv n pos p0 :
+  NetInv n -> nth_error (fds n) pos = Some p0 ->
+  NetInv (net_with n (socks n) (upd_nth pos (pf_fold p0) (fds n))).
+Proof.
+  intros HI Hp0. eapply upd_rev_inv; eauto using pf_fold_fd, pf_fold_ein, pf_fold_eout.
+  intros d Hr. apply pf_fold_rev_dir in Hr. destruct Hr as [Hr | [_ Hr]]; [|exact Hr].
+  eapply (n_revents n HI); eauto.
+Qed.
+
+(* ---------------------------------------------------------------- events_network_get *)
+(* readiness bits after the scan come from bits before it, or from a pending ERR/HUP *)
+Definition get_rel (n n' : net_st) : Prop :=
+  (forall f d, rb_dir (rev_at n' f) d = true ->
+               rb_dir (rev_at n f) d = true \/ rb_errhup (rev_at n f) = true) /\
+  (forall f, rb_errhup (rev_at n' f) = true -> rb_errhup (rev_at n f) = true).
+
+Lemma get_rel_refl n : get_rel n n.
+Proof. split; auto. Qed.
+
+Lemma get_rel_trans a b c : get_rel a b -> get_rel b c -> get_rel a c.
+Proof.
+  intros [A1 A2] [B1 B2]. split.
+  - intros f d H. destruct (B1 f d H) as [X | X]; [apply A1; exact X | right; apply A2; exact X].
+  - intros f H. apply A2, B2. exact H.
+Qed.
+
+Definition get_result (n n' : net_st) (ro : option rec) : Prop :=
+  match ro with
+  | None => forall f d, field n' f d = field n f d
+  | Some rc => exists s dir, field n s dir = Some rc /\
+      (forall f d, field n' f d = if Nat.eqb f s && Bool.eqb d dir then None else field n f d) /\
+      (rb_dir (rev_at n s) dir = true \/ rb_errhup (rev_at n s) = true)
+  end.
+
+Lemma net_set_scan_inv n x : NetInv n -> NetInv (net_set_scan n x).
+Proof. intros HI. destruct HI. constructor; simpl; auto. Qed.
+
+Lemma fold_get_rel n pos p0 :
+  NetInv n -> nth_error (fds n) pos = Some p0 ->
+  get_rel n (net_with n (socks n) (upd_nth pos (pf_fold p0) (fds n))) /\
+  rev_at n (p_fd p0) = p_rev p0 /\
+  (forall f, rev_at (net_with n (socks n) (upd_nth pos (pf_fold p0) (fds n))) f =
+             if Nat.eqb f (p_fd p0) then p_rev (pf_fold p0) else rev_at n f).
+Proof.
+  intros HI Hp0.
+  assert (Hs : rev_at n (p_fd p0) = p_rev p0).
+  { unfold rev_at. rewrite (slot_of_nth n pos p0 HI Hp0). reflexivity. }
+  assert (Hv : forall f, rev_at (net_with n (socks n) (upd_nth pos (pf_fold p0) (fds n))) f =
+             if Nat.eqb f (p_fd p0) then p_rev (pf_fold p0) else rev_at n f).
+  { intros f. unfold rev_at at 1. rewrite (upd_rev_slot n pos p0 (pf_fold p0) f HI Hp0).
+    destruct (Nat.eqb f (p_fd p0)); reflexivity. }
+  split; [|split; assumption]. split.
+  - intros f d H. rewrite Hv in H. destruct (Nat.eqb f (p_fd p0)) eqn:E; [|auto].
+    apply Nat.eqb_eq in E. subst f. rewrite Hs. apply pf_fold_rev_dir in H. tauto.
+  - intros f H. rewrite Hv in H. destruct (Nat.eqb f (p_fd p0)) eqn:E; [|auto].
+    apply Nat.eqb_eq in E. subst f. rewrite Hs. apply pf_fold_errhup. exact H.
+Qed.
+
+(* one dispatch: the entry at pos (already folded) has the bit for dir *)
+Lemma get_dispatch n pos p0 dir k n3 :
+  NetInv n -> net_inited n = true -> nth_error (fds n) pos = Some p0 ->
+  rb_dir (p_rev (pf_fold p0)) dir = true ->
+  nth_error (socks n) (p_fd p0) = Some k ->
+  clearbit pos dir
+    (net_with (net_with n (socks n) (upd_nth pos (pf_fold p0) (fds n)))
+              (upd_nth (p_fd p0) (sk_set dir None k) (socks n))
+              (upd_nth pos (pf_fold p0) (fds n))) = Ok n3 ->
+  NetInv n3 /\ net_inited n3 = true /\ get_rel n n3 /\ get_result n n3 (sk_get dir k).
+Proof.
+  intros HI Hin Hp0 Hbit Hk Hcb.
+  set (p := pf_fold p0) in *.
+  set (n1 := net_with n (socks n) (upd_nth pos p (fds n))) in *.
+  assert (HI1 : NetInv n1) by (apply fold_inv; auto).
+  destruct (fold_get_rel n pos p0 HI Hp0) as [Hrel1 [Hs0 Hv1]]. fold p in Hrel1, Hv1. fold n1 in Hrel1, Hv1.
+  assert (Hp1 : nth_error (fds n1) pos = Some p).
+  { unfold n1. simpl. apply nth_error_upd_nth_eq. eapply nth_error_lt; eauto. }
+  assert (Hpos : pollpos k = Some pos).
+  { destruct (n_slot_sock n HI pos p0 Hp0) as [k0 [A B]]. congruence. }
+  assert (Hk1 : nth_error (socks n1) (p_fd p0) = Some k) by exact Hk.
+  change (net_with n1 (upd_nth (p_fd p0) (sk_set dir None k) (socks n)) (upd_nth pos p (fds n)))
+    with (net_with n1 (upd_nth (p_fd p0) (sk_set dir None k) (socks n1)) (fds n1)) in Hcb.
+  destruct (net_remove_spec n1 (p_fd p0) k pos p dir n3 HI1 Hin Hk1 Hpos Hp1 Hcb) as [HI3 [Hin3 [Hf3 Hr3]]].
+  pose proof (net_remove_shrinks n1 (p_fd p0) k pos p dir n3 HI1 Hin Hk1 Hpos Hp1 Hcb) as [Hsh1 Hsh2].
+  split; [exact HI3|]. split; [exact Hin3|]. split.
+  - apply get_rel_trans with (b := n1); [exact Hrel1|]. split.
+    + intros f d H. left. apply (Hsh1 f d H).
+    + intros f H. apply Hsh2. exact H.
+  - unfold get_result. destruct (sk_get dir k) as [rc|] eqn:Eget.
+    + exists (p_fd p0), dir. split; [unfold field; rewrite Hk; exact Eget|]. split.
+      * intros f d. rewrite Hf3. reflexivity.
+      * rewrite Hs0. apply pf_fold_rev_dir in Hbit. tauto.
+    + intros f d. rewrite Hf3. destruct (Nat.eqb f (p_fd p0) && Bool.eqb d dir) eqn:E; [|reflexivity].
+      apply andb_true_iff in E. destruct E as [E1 E2]. apply Nat.eqb_eq in E1. apply eqb_prop in E2. subst.
+      unfold field. change (socks n1) with (socks n). rewrite Hk. symmetry. exact Eget.
+Qed.
+
+Lemma get_result_trans n n1 n' ro :
+  (forall f d, field n1 f d = field n f d) -> get_rel n n1 -> get_result n1 n' ro -> get_result n n' ro.
+Proof.
+  intros Hf [R1 R2] H. destruct ro as [rc|]; simpl in *.
+  - destruct H as [s [dir [A [B C]]]]. exists s, dir. split; [rewrite <- Hf; exact A|]. split.
+    + intros f d. rewrite B. destruct (Nat.eqb f s && Bool.eqb d dir); [reflexivity | apply Hf].
+    + destruct C as [C | C]; [apply R1; exact C | right; apply R2; exact C].
+  - intros f d. rewrite H. apply Hf.
+Qed.
+
+Lemma net_get_loop_spec fuel : forall n ro n',
+  NetInv n -> net_inited n = true -> net_get_loop fuel n = Ok (ro, n') ->
+  NetInv n' /\ net_inited n' = true /\ get_rel n n' /\ get_result n n' ro.
+Proof.
+  induction fuel as [|fuel IH]; intros n ro n' HI Hin H; simpl in H; [discriminate|].
+  destruct (scanpos n <? N.of_nat (length (fds n)))%N eqn:Escan.
+  2:{ inversion H; subst. split; [exact HI|]. split; [exact Hin|]. split; [apply get_rel_refl|].
+      simpl. auto. }
+  destruct (rdn (fds n) (N.to_nat (scanpos n))) as [p0| | |] eqn:Ep0; simpl in H; try discriminate.
+  apply rdn_ok in Ep0. set (pos := N.to_nat (scanpos n)) in *.
+  destruct (b_in (p_rev (pf_fold p0))) eqn:Ein.
+  { rewrite pf_fold_fd in H.
+    destruct (rdn (socks n) (p_fd p0)) as [k| | |] eqn:Ek; simpl in H; try discriminate. apply rdn_ok in Ek.
+    match type of H with context [clearbit pos false ?st] => destruct (clearbit pos false st) as [n3| | |] eqn:Ecb end;
+      simpl in H; try discriminate.
+    inversion H; subst ro n'.
+    apply (get_dispatch n pos p0 false k n3 HI Hin Ep0 Ein Ek Ecb). }
+  destruct (b_out (p_rev (pf_fold p0))) eqn:Eout.
+  { rewrite pf_fold_fd in H.
+    destruct (rdn (socks n) (p_fd p0)) as [k| | |] eqn:Ek; simpl in H; try discriminate. apply rdn_ok in Ek.
+    match type of H with context [clearbit pos true ?st] => destruct (clearbit pos true st) as [n3| | |] eqn:Ecb end;
+      simpl in H; try discriminate.
+    inversion H; subst ro n'.
+    apply (get_dispatch n pos p0 true k n3 HI Hin Ep0 Eout Ek Ecb). }
+  (* nothing at this position: move on *)
+  set (n1 := net_with n (socks n) (upd_nth pos (pf_fold p0) (fds n))) in *.
+  assert (HI1 : NetInv n1) by (apply fold_inv; auto).
+  destruct (fold_get_rel n pos p0 HI Ep0) as [Hrel1 _]. fold n1 in Hrel1.
+  apply IH in H; [|apply net_set_scan_inv; exact HI1 | exact Hin].
+  destruct H as [HI' [Hin' [Hrel' Hres']]].
+  split; [exact HI'|]. split; [exact Hin'|]. split.
+  - apply get_rel_trans with (b := n1); [exact Hrel1 | exact Hrel'].
+  - apply (get_result_trans n n1 n' ro); auto.
+Qed.
+
+Lemma net_get_spec n ro n' :
+  NetInv n -> net_inited n = true -> net_get n = Ok (ro, n') ->
+  NetInv n' /\ net_inited n' = true /\ get_rel n n' /\ get_result n n' ro.
+Proof. unfold net_get. apply net_get_loop_spec. Qed.
